@@ -70,7 +70,10 @@ IdxCases == UNION {{[fam |-> "idxnamed", group |-> SetToSortSeq({IdxKey(e) : e \
 \* A case: per argument (names z, y, x in this order) a sequence of two distinct SDG texts
 OrdInner == {sq \in [1..2 -> SdTexts] : sq[1] # sq[2]}
 OrdCases == {[fam |-> "ordered", group |-> <<Canon(i1), Canon(i2), Canon(i3)>>, perm |-> <<i1, i2, i3>>] : i1 \in OrdInner, i2 \in OrdInner, i3 \in {<<"a", "b">>, <<"c", "a">>}}
-Cases == PkgCases \cup EcucCases \cup MixCases \cup NestCases \cup IdxCases \cup OrdCases
+\* mixed content is not reorderable: text runs and inline elements stay where they are
+MixedContent == {<<"c:one", "e:TT", "c:two", "e:XREF-TARGET">>, <<"e:XREF-TARGET", "e:TT">>, <<"e:TT", "c:b", "e:TT", "c:a">>, <<"c:z", "e:XREF-TARGET", "e:TT">>}
+MixedCases == {[fam |-> "mixedcontent", group |-> it, perm |-> it] : it \in MixedContent}
+Cases == PkgCases \cup EcucCases \cup MixCases \cup NestCases \cup IdxCases \cup OrdCases \cup MixedCases
 
 \* ------------------------------------------------------------------ (3) judging results of the real library
 \* result record: [fam, group, before (keys), after (keys), after2 (keys), res (result class), sub (subtree digests before/after as sets)]
